@@ -28,7 +28,7 @@ func (c19) Cases(tier string) int {
 }
 
 func (c19) Rule() string {
-	return "L2.new-options: 3 random lists of 1-8 options per case (planners, priority lists, queryer factories, middleware lists, others; all recording what they are handed) through gateway.New and one request, against the Lean model Nw.build (installed planner, what it was told, response and request middleware order); then 0-4 recording response middlewares (each adds a key to the response; optionally one of them fails) interleaved at registration with 0-3 recording request middlewares, handed to gateway.New in one WithMiddlewares option or cut into two or three, x fault patterns {none, a failing dependent call, a failing root call} x queries with joins (so that injected ids exist), a fifth of the cases over a single service with a query through the gateway's own node field; services are wrapped in a queryer implementing QueryerWithMiddlewares that applies the middlewares it is handed to a request object before every call; checked: the response-middleware log is the registration-order prefix up to and including the first failing one, on success and on executor failure alike; every response middleware sees a response already free of injected ids (key sets equal the monolith's); the data returned carries every key the middlewares added; a middleware error is the returned error and no data is returned; every outbound call had every request middleware applied exactly once, in order; non-trivial = at least 1 response middleware and 2 service calls; distinct = distinct configuration"
+	return "L2.new-options: 3 random lists of 1-8 options per case (planners, priority lists, queryer factories, middleware lists, others; all recording what they are handed) through gateway.New and one request, against the Lean model Nw.build (installed planner, what it was told, response and request middleware order); then 0-4 recording response middlewares (each adds a key to the response; optionally one of them fails) interleaved at registration with 0-3 recording request middlewares, handed to gateway.New in one WithMiddlewares option or cut into two or three, x fault patterns {none, a failing dependent call, a failing root call} x queries with joins (so that injected ids exist), a fifth of the cases over a single service with a query through the gateway's own node field; services are wrapped in a queryer implementing QueryerWithMiddlewares that applies the middlewares it is handed to a request object before every call; checked: the response-middleware log is the registration-order prefix up to and including the first failing one, on success and on executor failure alike; every response middleware sees a response already free of injected ids (key sets equal the monolith's); the data returned carries every key the middlewares added; a middleware error aborts the request: no data, and the error returned is the middleware's (after the execution's own errors when it had reported any); every outbound call had every request middleware applied exactly once, in order; non-trivial = at least 1 response middleware and 2 service calls; distinct = distinct configuration"
 }
 
 // mwQueryer wraps a Service and implements graphql.QueryerWithMiddlewares.
@@ -204,8 +204,26 @@ func (c19) Run(c *Ctx, i int) CaseResult {
 		}
 	}
 	if failAt >= 0 {
-		if out.Err == nil || out.Err.Error() != "middleware resp"+fmt.Sprint(failAt)+" failed" {
-			bad("L0.mw-error", "a failing middleware must abort the request with its error", "middleware resp"+fmt.Sprint(failAt)+" failed", ErrString(out.Err))
+		// the request is aborted with the middleware's error: it is THE error when the execution reported none, and the
+		// last of the list after the execution's own errors otherwise (those are failures that occurred, C07: a
+		// middleware does not hide them)
+		wantMsg := "middleware resp" + fmt.Sprint(failAt) + " failed"
+		msgs := errMultiset(out.Err)
+		holds := false
+		for _, m := range msgs {
+			if m == wantMsg {
+				holds = true
+			}
+		}
+		injectedBefore := 0
+		if fl != nil {
+			_, injectedBefore, _ = fl.Snapshot()
+		}
+		if out.Err == nil || !holds || (injectedBefore == 0 && out.Err.Error() != wantMsg) {
+			bad("L0.mw-error", "a failing middleware must abort the request with its error", wantMsg, ErrString(out.Err))
+		}
+		if injectedBefore > 0 && len(msgs) < 2 {
+			bad("L0.mw-error", "a middleware failed after the execution had reported errors: those must stay in the list", "the execution's errors and "+wantMsg, ErrString(out.Err))
 		}
 		if out.Data != nil {
 			bad("L0.mw-error", "data was returned although a middleware failed", nil, out.Data)
